@@ -10,20 +10,30 @@
     - rescaling a wall's normal / up vector by positive factors changes no BRDF direction (e).
     - the patch subdivision of a wall under the 48 signed axis permutations: the patches of the
       image wall are the images of the patches, renumbered (f).
+    - the COMPOSED room model ([Model/Full.v]: polygons -> tiling -> visibility -> form factors ->
+      shares -> exchange -> receiver) instead of an abstract scene with assumed baked data:
+      translating the room description leaves the whole output IDENTICAL, nothing assumed (g);
+      under a signed axis permutation the tiling, centres, areas, wall ids, all delay bins (h), the
+      source / receiver shares and initial energies (i), the wall frames for the 24 rotations (j),
+      the Stokes entries of the form-factor matrix (k) of the image room are DERIVED to be the
+      renumbered ones; with the visibility data and the Nusselt-branch entries transported
+      (hypotheses) the patch histograms correspond (l, partial) and the output curve of the
+      rotated room is the identical list (m, partial).
     NOT carried by any theorem (NOT_CARRIED in harness/props/C17.py): the 0.5 %-of-peak bound under
     axis permutations, float rounding, the Nusselt branch,
     [point_in_polygon] under rotations (the visibility statement is conditional on it).
     Stokes form factors under rigid maps ARE carried (d''): the cut-off-free sum, i.e. the code
     with its cut-off 0 as repaired in /repo (it was false for the pinned 1e-3 m cut-off: finding
     C05/similarity_cutoff). *)
-From Coq Require Import List Arith Bool Permutation.
+From Coq Require Import List Arith Bool Permutation FinFun.
 Import ListNotations.
 From SV Require Import Base.Ops Base.OpsGeom Base.Arr Base.Sums Model.Vec3 Model.Exchange Model.Scene
-  Model.Frame Model.Tiling Model.PtSolution Model.Stokes Model.Visibility.
+  Model.Frame Model.Tiling Model.PtSolution Model.Stokes Model.Visibility Model.Nusselt Model.Full.
 From SV Require Import Spec.ExchangeSpec Spec.Isometry Proofs.SceneRefine Proofs.ReceiverProofs
   Proofs.PtSimilarity Proofs.FieldFacts Proofs.StokesSum Proofs.StokesSimilarity Proofs.TilingProofs
   Proofs.TilingPerm
-  Proofs.PlacementTranslate Proofs.PlacementRelabel Proofs.PlacementKernels Proofs.PlacementVisibility.
+  Proofs.PlacementTranslate Proofs.PlacementRelabel Proofs.PlacementKernels Proofs.PlacementVisibility
+  Proofs.FullProofs Proofs.FullTranslate Proofs.FullPlacement Proofs.FullPlacementScene.
 
 (** (a) C17_translate.  Shift every patch centre, the source and the receiver by [t] and keep the
     data produced by the geometry kernels (form factors, visibility, areas, point-to-patch
@@ -298,3 +308,346 @@ Proof.
                 (tiling_signed_perm_vertices sigma e0 e1 e2 Hp H0 H1 H2 q p f c Hok)).
 Qed.
 Print Assumptions C17_tiling_axis_permutation.
+
+(** * The composed room model (Model/Full.v): placement invariance derived from the room description *)
+
+(** (g) C17_room_translate.  Shift every wall polygon of a room description by [t] (normals, up
+    vectors, patch size, BRDF data, tolerances kept), and the source and the receiver with it.
+    NOTHING is assumed about the tiling, the visibility, the form factors or the shares of the
+    shifted room -- they are computed by the composed model and proved to be: the shifted patch
+    polygons and centroids, the same areas, wall ids, patch-to-patch visibility matrix
+    ([point_in_polygon], [project_to_plane], [basic_visibility] are translation invariant), the
+    same form-factor matrix (Stokes AND Nusselt entries), the same point visibility and shares.
+    Hence the baked scene / source / receiver are the translated ones of (a), and the patch
+    histograms of every order and the mono curve of [room_mono] are IDENTICAL lists.
+    Ordered field with floor (exact arithmetic): comparisons of shifted abscissae, the tiling's
+    min / max, the centroid [sum / 4]. *)
+Theorem C17_room_translate {T} {O : Ops T} {RL : RingLaws T} {OL : OrderLaws T} {FL : FieldLaws T}
+    {FlL : FloorLaws T} (t : @vec T) (rm : @room T) (tm : @timing T) (src rcv : @vec T) (K : nat)
+    (direct : bool) :
+  let rm' := translate_room t rm in
+  (rm_patch_pts rm' = map (map (fun p => vadd p t)) (rm_patch_pts rm) /\
+   rm_centers rm' = map (fun c => vadd c t) (rm_centers rm) /\
+   rm_areas rm' = rm_areas rm /\
+   pr_wall_ids (rm_processed rm') = pr_wall_ids (rm_processed rm) /\
+   rm_visU rm' = rm_visU rm /\ rm_F rm' = rm_F rm /\
+   room_point_vis rm' (vadd src t) = room_point_vis rm src) /\
+  room_scene rm' = translate_scene t (room_scene rm) /\
+  room_source rm' (vadd src t) = translate_source t (room_source rm src) /\
+  room_receiver rm' (vadd rcv t) = translate_receiver t (room_receiver rm rcv) /\
+  patch_hist (room_scene rm') tm (room_source rm' (vadd src t)) K =
+    patch_hist (room_scene rm) tm (room_source rm src) K /\
+  room_mono rm' tm (vadd src t) (vadd rcv t) K direct = room_mono rm tm src rcv K direct.
+Proof.
+  exact (conj (conj (room_patch_pts_translate t rm) (conj (room_centers_translate t rm)
+          (conj (room_areas_translate t rm) (conj (room_wall_ids_translate t rm)
+          (conj (room_visU_translate t rm) (conj (room_F_translate t rm) (room_point_vis_translate t rm src)))))))
+        (conj (room_scene_translate t rm) (conj (room_source_translate t rm src)
+        (conj (room_receiver_translate t rm rcv) (conj (room_patch_hist_translate t rm tm src K)
+              (room_mono_translate t rm tm src rcv K direct)))))).
+Qed.
+Print Assumptions C17_room_translate.
+
+(** the vocabulary of (h)-(l), unfolded.  [sperm_room]: walls, normals, up vectors mapped by
+    [m = smap sigma e0 e1 e2]; [walls_ok]: every wall in the domain of C08; [patch_image Q' Q]: [Q'] is
+    the image of [Q] with its vertex list re-ordered (one of the 8 orders of a quadrilateral);
+    [relabels .. pi]: [pi] is a bijection of [0, np) that sends every patch to its image on the
+    same wall; [sdet]: the handedness (determinant) of [m]. *)
+Theorem C17_room_vocabulary {T} {O : Ops T} (sigma : nat -> nat) (e0 e1 e2 : T) (rm : @room T)
+    (pi : nat -> nat) (Q' Q : @Tiling.quad T) :
+  let m := smap sigma e0 e1 e2 in
+  let rm' := sperm_room sigma e0 e1 e2 rm in
+  (rm_walls rm' = map (map_quad m) (rm_walls rm) /\ rm_normals rm' = map m (rm_normals rm) /\
+   rm_ups rm' = map m (rm_ups rm) /\ rm_patch_size rm' = rm_patch_size rm) /\
+  (walls_ok rm <-> forall q, In q (rm_walls rm) -> exists f c, wall_ok q (rm_patch_size rm) f c) /\
+  (patch_image sigma e0 e1 e2 Q' Q <-> exists o, Q' = reorder o (map_quad m Q)) /\
+  (relabels sigma e0 e1 e2 rm pi <->
+     bFun (rm_np rm) pi /\ bInjective (rm_np rm) pi /\
+     (forall k, k < rm_np rm ->
+        patch_image sigma e0 e1 e2 (nth (pi k) (pr_points (rm_processed rm')) dquad)
+                                   (nth k (pr_points (rm_processed rm)) dquad)) /\
+     (forall k, k < rm_np rm ->
+        nthn (pr_wall_ids (rm_processed rm')) (pi k) = nthn (pr_wall_ids (rm_processed rm)) k)) /\
+  (let sg : T := if sigma 0 =? 0 then (if sigma 1 =? 1 then 1%T else (- (1))%T)
+                 else if sigma 0 =? 1 then (if sigma 1 =? 2 then 1%T else (- (1))%T)
+                 else (if sigma 1 =? 0 then 1%T else (- (1))%T) in
+   sdet sigma e0 e1 e2 = (((sg * e0) * e1) * e2)%T).
+Proof.
+  exact (conj (conj eq_refl (conj eq_refl (conj eq_refl eq_refl)))
+        (conj (iff_refl _) (conj (iff_refl _) (conj (iff_refl _) eq_refl)))).
+Qed.
+Print Assumptions C17_room_vocabulary.
+
+(** (h) C17_room_geometry_axis_permutation.  For each of the 48 signed axis permutations and every
+    room whose walls are in the domain of C08: the image room has the same number of patches and the
+    same wall-id list, and THERE IS a renumbering [pi] of the patches (built wall by wall from (f))
+    such that patch [pi k] of the image room is the image of patch [k], vertices re-ordered, on the
+    same wall.  For EVERY such [pi]: centroids, areas, wall ids and patch normals of the image room
+    are the [pi]-transported ones, and every travel-time bin -- patch to patch, patch to the carried
+    receiver, direct sound, and source to patch where the source visibility agrees -- is unchanged.
+    Ordered field with floor. *)
+Theorem C17_room_geometry_axis_permutation {T} {O : Ops T} {RL : RingLaws T} {OL : OrderLaws T}
+    {FL : FieldLaws T} {FlL : FloorLaws T}
+    (sigma : nat -> nat) (e0 e1 e2 : T) (rm : @room T) :
+  Permutation [sigma 0; sigma 1; sigma 2] [0; 1; 2] ->
+  (e0 = 1 \/ e0 = - (1))%T -> (e1 = 1 \/ e1 = - (1))%T -> (e2 = 1 \/ e2 = - (1))%T ->
+  walls_ok rm ->
+  let m := smap sigma e0 e1 e2 in
+  let rm' := sperm_room sigma e0 e1 e2 rm in
+  let sc := room_scene rm in
+  let sc' := room_scene rm' in
+  rm_np rm' = rm_np rm /\ pr_wall_ids (rm_processed rm') = pr_wall_ids (rm_processed rm) /\
+  (exists pi, relabels sigma e0 e1 e2 rm pi) /\
+  forall pi, relabels sigma e0 e1 e2 rm pi ->
+    (forall k, k < rm_np rm ->
+       nthv (rm_centers rm') (pi k) = m (nthv (rm_centers rm) k) /\
+       nthT (rm_areas rm') (pi k) = nthT (rm_areas rm) k /\
+       wall sc' (pi k) = wall sc k /\
+       nthv (pr_normals (rm_processed rm')) (pi k) = m (nthv (pr_normals (rm_processed rm)) k)) /\
+    (forall tm i j, i < rm_np rm -> j < rm_np rm ->
+       scene_delta sc' tm (pi i) (pi j) = scene_delta sc tm i j) /\
+    (forall tm spos rpos k, k < rm_np rm ->
+       r_delay sc' tm (room_receiver rm' (m rpos)) (pi k) = r_delay sc tm (room_receiver rm rpos) k /\
+       direct_bin tm (room_source rm' (m spos)) (room_receiver rm' (m rpos)) =
+         direct_bin tm (room_source rm spos) (room_receiver rm rpos)) /\
+    (forall tm spos,
+       (forall k, k < rm_np rm ->
+          nthb (room_point_vis rm' (m spos)) (pi k) = nthb (room_point_vis rm spos) k) ->
+       forall k, k < rm_np rm ->
+         scene_delta0 sc' tm (room_source rm' (m spos)) (pi k) = scene_delta0 sc tm (room_source rm spos) k).
+Proof.
+  intros Hp H0 H1 H2 Hw. cbv zeta.
+  split; [exact (sperm_room_np sigma e0 e1 e2 Hp H0 H1 H2 rm Hw)|].
+  split; [exact (sperm_room_wall_ids sigma e0 e1 e2 Hp H0 H1 H2 rm Hw)|].
+  split; [exact (room_relabel_exists sigma e0 e1 e2 Hp H0 H1 H2 rm Hw)|].
+  intros pi Hpi. split; [|split; [|split]].
+  - intros k Hk.
+    exact (conj (relabel_center sigma e0 e1 e2 Hp H0 H1 H2 rm Hw pi Hpi k Hk)
+          (conj (relabel_area sigma e0 e1 e2 Hp H0 H1 H2 rm Hw pi Hpi k Hk)
+          (conj (sc_wall sigma e0 e1 e2 rm pi Hpi k Hk)
+                (relabel_normal sigma e0 e1 e2 Hp H0 H1 H2 rm Hw pi Hpi k Hk)))).
+  - intros tm i j Hi Hj. exact (sc_delta sigma e0 e1 e2 Hp H0 H1 H2 rm Hw pi Hpi tm i j Hi Hj).
+  - intros tm spos rpos k Hk.
+    exact (conj (sc_r_delay sigma e0 e1 e2 Hp H0 H1 H2 rm Hw pi Hpi rpos tm k Hk)
+                (sc_direct_bin sigma e0 e1 e2 Hp H0 H1 H2 rm spos rpos tm)).
+  - intros tm spos Hsv k Hk.
+    exact (sc_delta0 sigma e0 e1 e2 Hp H0 H1 H2 rm Hw pi Hpi spos Hsv tm k Hk).
+Qed.
+Print Assumptions C17_room_geometry_axis_permutation.
+
+(** (i) C17_room_initial_energy_axis_permutation.  The point-to-patch shares of the carried source
+    and receiver (both modes of [pt_solution]: invariance under linear isometries and under the
+    re-ordering of the vertex list; the receiver mode also needs the area) are the renumbered
+    shares -- no hypothesis.  Where the visibility from the source is the transported one
+    (hypothesis: C07 proves it in closed form for interior points of shoebox rooms only) the
+    source distance and the initial energy [energy0] of every patch and band are the renumbered
+    ones; for the 24 ROTATIONS ([sdet = 1]) also the incoming-direction sample, hence the
+    directional initial energies [e0dir_entry].  [DivLaws]: division by a possibly vanishing norm. *)
+Theorem C17_room_initial_energy_axis_permutation {T} {O : Ops T} {RL : RingLaws T} {OL : OrderLaws T}
+    {FL : FieldLaws T} {FlL : FloorLaws T} {DL : DivLaws T}
+    (sigma : nat -> nat) (e0 e1 e2 : T) (rm : @room T) (pi : nat -> nat) (spos rpos : @vec T) :
+  Permutation [sigma 0; sigma 1; sigma 2] [0; 1; 2] ->
+  (e0 = 1 \/ e0 = - (1))%T -> (e1 = 1 \/ e1 = - (1))%T -> (e2 = 1 \/ e2 = - (1))%T ->
+  walls_ok rm -> relabels sigma e0 e1 e2 rm pi ->
+  let m := smap sigma e0 e1 e2 in
+  let rm' := sperm_room sigma e0 e1 e2 rm in
+  let sc := room_scene rm in
+  let sc' := room_scene rm' in
+  let s := room_source rm spos in
+  let s' := room_source rm' (m spos) in
+  (forall k, k < rm_np rm ->
+     nthT (src_share s') (pi k) = nthT (src_share s) k /\
+     nthT (r_share (room_receiver rm' (m rpos))) (pi k) = nthT (r_share (room_receiver rm rpos)) k) /\
+  ((forall k, k < rm_np rm ->
+      nthb (room_point_vis rm' (m spos)) (pi k) = nthb (room_point_vis rm spos) k) ->
+   (forall k b, k < rm_np rm ->
+      src_dist sc' s' (pi k) = src_dist sc s k /\ energy0 sc' s' (pi k) b = energy0 sc s k b) /\
+   (sdet sigma e0 e1 e2 = 1%T ->
+    forall k d b, k < rm_np rm ->
+      src_in_index sc' s' (pi k) = src_in_index sc s k /\
+      e0dir_entry sc' s' (pi k) d b = e0dir_entry sc s k d b)).
+Proof.
+  intros Hp H0 H1 H2 Hw Hpi. cbv zeta. split.
+  - intros k Hk.
+    exact (conj (sc_src_share sigma e0 e1 e2 Hp H0 H1 H2 rm Hw pi Hpi spos k Hk)
+                (sc_rcv_share sigma e0 e1 e2 Hp H0 H1 H2 rm Hw pi Hpi rpos k Hk)).
+  - intros Hsv. split.
+    + intros k b Hk.
+      exact (conj (sc_src_dist sigma e0 e1 e2 Hp H0 H1 H2 rm Hw pi Hpi spos Hsv k Hk)
+                  (sc_energy0 sigma e0 e1 e2 Hp H0 H1 H2 rm Hw pi Hpi spos Hsv k b Hk)).
+    + intros Hdet k d b Hk.
+      exact (conj (sc_src_in_index sigma e0 e1 e2 Hp H0 H1 H2 rm Hw pi Hpi spos Hdet k Hk)
+                  (sc_e0dir_entry sigma e0 e1 e2 Hp H0 H1 H2 rm Hw pi Hpi spos Hsv Hdet k d b Hk)).
+Qed.
+Print Assumptions C17_room_initial_energy_axis_permutation.
+
+(** (j) C17_room_frames_axis_permutation.  The wall frame of the BRDF direction sets is built with a
+    cross product, so it follows the handedness of [m]: the frame direction of the image wall is
+    the image of the frame direction with the tangential y component multiplied by [sdet] (+1 for
+    the 24 rotations, -1 for the 24 maps that contain a mirroring -- there the direction set of the
+    image wall is NOT the image of the direction set unless the set is symmetric in y).  For
+    rotations every incoming-sample and outgoing-slot index between renumbered patches, and towards
+    the carried receiver, is the same. *)
+Theorem C17_room_frames_axis_permutation {T} {O : Ops T} {RL : RingLaws T} {OL : OrderLaws T}
+    {FL : FieldLaws T} {FlL : FloorLaws T} {DL : DivLaws T}
+    (sigma : nat -> nat) (e0 e1 e2 : T) (rm : @room T) (pi : nat -> nat) (rpos : @vec T) :
+  Permutation [sigma 0; sigma 1; sigma 2] [0; 1; 2] ->
+  (e0 = 1 \/ e0 = - (1))%T -> (e1 = 1 \/ e1 = - (1))%T -> (e2 = 1 \/ e2 = - (1))%T ->
+  let m := smap sigma e0 e1 e2 in
+  let rm' := sperm_room sigma e0 e1 e2 rm in
+  let sc := room_scene rm in
+  let sc' := room_scene rm' in
+  (forall a b, vcross (m a) (m b) = vscale (sdet sigma e0 e1 e2) (m (vcross a b))) /\
+  (forall n u d, wall_dir (m n) (m u) d =
+                 m (wall_dir n u (mkv (vx d) (sdet sigma e0 e1 e2 * vy d) (vz d))%T)) /\
+  (walls_ok rm -> relabels sigma e0 e1 e2 rm pi -> sdet sigma e0 e1 e2 = 1%T ->
+   (forall w, in_dirs sc' w = map m (in_dirs sc w) /\ out_dirs sc' w = map m (out_dirs sc w)) /\
+   forall i j, i < rm_np rm -> j < rm_np rm ->
+     in_index sc' (pi i) (pi j) = in_index sc i j /\ out_index sc' (pi i) (pi j) = out_index sc i j /\
+     r_out_index sc' (room_receiver rm' (m rpos)) (pi i) = r_out_index sc (room_receiver rm rpos) i).
+Proof.
+  intros Hp H0 H1 H2. cbv zeta.
+  split; [exact (smap_cross sigma e0 e1 e2 Hp H0 H1 H2)|].
+  split; [exact (wall_dir_sperm sigma e0 e1 e2 Hp H0 H1 H2)|].
+  intros Hw Hpi Hdet. split.
+  - intros w. exact (conj (sc_in_dirs sigma e0 e1 e2 Hp H0 H1 H2 rm Hdet w)
+                          (sc_out_dirs sigma e0 e1 e2 Hp H0 H1 H2 rm Hdet w)).
+  - intros i j Hi Hj.
+    exact (conj (sc_in_index sigma e0 e1 e2 Hp H0 H1 H2 rm Hw pi Hpi Hdet i j Hi Hj)
+          (conj (sc_out_index sigma e0 e1 e2 Hp H0 H1 H2 rm Hw pi Hpi Hdet i j Hi Hj)
+                (sc_r_out_index sigma e0 e1 e2 Hp H0 H1 H2 rm Hw pi Hpi rpos Hdet i Hi))).
+Qed.
+Print Assumptions C17_room_frames_axis_permutation.
+
+(** (k) C17_room_stokes_axis_permutation.  The touching test [_coincidence_check] that selects the
+    branch of [universal_form_factor] gives the same answer on renumbered pairs (it only looks at
+    vertex distances), and for a visible pair i < j on the Stokes branch the entry of the image
+    room's form-factor matrix IS the entry of the room's matrix: the Stokes kernel is invariant
+    under signed axis permutations with ANY cut-off (C05) and under the independent
+    re-ordering of the two vertex lists (a reversal flips the sign of the contour integral, the
+    final absolute value removes it), and the area is the same.  Visibility of the pair in both
+    rooms is a hypothesis here (see (l)); a pair on different walls keeps its order. *)
+Theorem C17_room_stokes_axis_permutation {T} {O : Ops T} {RL : RingLaws T} {OL : OrderLaws T}
+    {FL : FieldLaws T} {FlL : FloorLaws T} {DL : DivLaws T} {AL : FieldFacts.AbsLaws T}
+    (sigma : nat -> nat) (e0 e1 e2 : T) (rm : @room T) (pi : nat -> nat) (i j : nat) :
+  Permutation [sigma 0; sigma 1; sigma 2] [0; 1; 2] ->
+  (e0 = 1 \/ e0 = - (1))%T -> (e1 = 1 \/ e1 = - (1))%T -> (e2 = 1 \/ e2 = - (1))%T ->
+  walls_ok rm -> relabels sigma e0 e1 e2 rm pi ->
+  let rm' := sperm_room sigma e0 e1 e2 rm in
+  (i < rm_np rm -> j < rm_np rm ->
+   coincidence_check (rm_thres rm) (nth (pi j) (rm_patch_pts rm') []) (nth (pi i) (rm_patch_pts rm') []) =
+   coincidence_check (rm_thres rm) (nth j (rm_patch_pts rm) []) (nth i (rm_patch_pts rm) [])) /\
+  (i < j -> j < rm_np rm ->
+   (wall (room_scene rm) i <> wall (room_scene rm) j -> pi i < pi j) /\
+   (pi i < pi j ->
+    vis_sym (room_scene rm) i j = true -> vis_sym (room_scene rm') (pi i) (pi j) = true ->
+    coincidence_check (rm_thres rm) (nth j (rm_patch_pts rm) []) (nth i (rm_patch_pts rm) []) = false ->
+    get2 (s_F (room_scene rm')) (pi i) (pi j) = get2 (s_F (room_scene rm)) i j)).
+Proof.
+  intros Hp H0 H1 H2 Hw Hpi. cbv zeta. split.
+  - intros Hi Hj. exact (sc_coincidence sigma e0 e1 e2 Hp H0 H1 H2 rm Hw pi Hpi i j Hi Hj).
+  - intros Hij Hj. split.
+    + exact (relabel_mono sigma e0 e1 e2 Hp H0 H1 H2 rm Hw pi Hpi i j Hij Hj).
+    + exact (sc_F_stokes sigma e0 e1 e2 Hp H0 H1 H2 rm Hw pi Hpi i j Hij Hj).
+Qed.
+Print Assumptions C17_room_stokes_axis_permutation.
+
+(** (l) C17_room_axis_permutation_partial (PARTIAL).  For the 24 rotations among the signed axis
+    permutations ([sdet = 1]), a room in the domain of C08 with a non-empty outgoing direction set,
+    and any renumbering [pi] of (h): every hypothesis of C17_relabel_scene about delay bins,
+    outgoing slots, baked transfer factors on the Stokes branch, initial energies and the pair list
+    is DERIVED from (h)-(k).  What remains as hypotheses:
+    - the patch-to-patch visibility of the image room is the renumbered one, and the visibility
+      from the carried source likewise (C07: conditional on [point_in_polygon]);
+    - visible pairs lie on different walls (a theorem for shoebox rooms, [C07_shoebox_visibility];
+      it makes [pi] keep the order of every visible pair);
+    - for visible TOUCHING pairs the Nusselt integrator returns the same value on the image
+      patches.  This is the genuinely non-invariant part: the integrator samples a regular grid
+      spanned by the first and the last edge of the vertex list and is not symmetric under axis
+      permutations; the property only claims a 0.5 %-of-peak bound for the curve there
+      (numerical statement, not a proof target).
+    Conclusion: all baked transfer factors are the renumbered ones, the directed pair list is a
+    permutation of the renumbered list, and the order-K histogram of patch [pi j] of the image room
+    is that of patch [j].  Mirrorings are excluded because of the wall frames (j). *)
+Theorem C17_room_axis_permutation_partial {T} {O : Ops T} {RL : RingLaws T} {OL : OrderLaws T}
+    {FL : FieldLaws T} {FlL : FloorLaws T} {DL : DivLaws T} {AL : FieldFacts.AbsLaws T}
+    (sigma : nat -> nat) (e0 e1 e2 : T) (rm : @room T) (pi : nat -> nat) (spos : @vec T) :
+  Permutation [sigma 0; sigma 1; sigma 2] [0; 1; 2] ->
+  (e0 = 1 \/ e0 = - (1))%T -> (e1 = 1 \/ e1 = - (1))%T -> (e2 = 1 \/ e2 = - (1))%T ->
+  sdet sigma e0 e1 e2 = 1%T ->
+  walls_ok rm -> rm_ref_out rm <> [] -> relabels sigma e0 e1 e2 rm pi ->
+  let m := smap sigma e0 e1 e2 in
+  let rm' := sperm_room sigma e0 e1 e2 rm in
+  let sc := room_scene rm in
+  let sc' := room_scene rm' in
+  (forall k, k < rm_np rm ->
+     nthb (room_point_vis rm' (m spos)) (pi k) = nthb (room_point_vis rm spos) k) ->
+  (forall i j, i < rm_np rm -> j < rm_np rm -> vis_sym sc' (pi i) (pi j) = vis_sym sc i j) ->
+  (forall i j, i < rm_np rm -> j < rm_np rm -> vis_sym sc i j = true -> wall sc i <> wall sc j) ->
+  (forall i j, i < j -> j < rm_np rm -> vis_sym sc i j = true ->
+     coincidence_check (rm_thres rm) (nth j (rm_patch_pts rm) []) (nth i (rm_patch_pts rm) []) = true ->
+     nusselt_ff (rm_thr_seg rm) (rm_thr_dot rm) (rm_thr_lag rm)
+       (nth (pi i) (rm_patch_pts rm') []) (nthv (pr_normals (rm_processed rm')) (pi i))
+       (nth (pi j) (rm_patch_pts rm') []) (nthv (pr_normals (rm_processed rm')) (pi j)) =
+     nusselt_ff (rm_thr_seg rm) (rm_thr_dot rm) (rm_thr_lag rm)
+       (nth i (rm_patch_pts rm) []) (nthv (pr_normals (rm_processed rm)) i)
+       (nth j (rm_patch_pts rm) []) (nthv (pr_normals (rm_processed rm)) j)) ->
+  (forall i j d b, i < rm_np rm -> j < rm_np rm ->
+     tilde_entry sc' (pi i) (pi j) d b = tilde_entry sc i j d b) /\
+  Permutation (directed (vis_pairs sc')) (map (sig2 pi) (directed (vis_pairs sc))) /\
+  forall tm K j d b t, j < rm_np rm -> d < s_nd sc -> b < s_nb sc -> t < n_samples tm ->
+    get4 (patch_hist sc' tm (room_source rm' (m spos)) K) (pi j) d b t =
+    get4 (patch_hist sc tm (room_source rm spos) K) j d b t.
+Proof.
+  intros Hp H0 H1 H2 Hdet Hw Hout Hpi. cbv zeta. intros Hsv Hvis Hacross HNus.
+  split; [|split].
+  - intros i j d b Hi Hj.
+    exact (sc_tilde_entry sigma e0 e1 e2 Hp H0 H1 H2 rm Hw pi Hpi Hvis Hacross HNus Hdet i j d b Hi Hj).
+  - exact (directed_relabel_perm (room_scene rm) (room_scene (sperm_room sigma e0 e1 e2 rm))
+             (room_scene_wf rm Hout) (room_scene_wf (sperm_room sigma e0 e1 e2 rm) Hout)
+             (sc_np sigma e0 e1 e2 Hp H0 H1 H2 rm Hw) pi (proj1 Hpi) (proj1 (proj2 Hpi)) Hvis).
+  - intros tm K j d b t.
+    exact (room_patch_hist_relabel sigma e0 e1 e2 Hp H0 H1 H2 rm Hw pi Hpi spos Hsv Hvis Hacross HNus Hdet Hout
+             tm K j d b t).
+Qed.
+Print Assumptions C17_room_axis_permutation_partial.
+
+(** (m) C17_room_rotation_curve_partial (PARTIAL).  Under the hypotheses of (l), and with the
+    visibility from the carried receiver transported as well, the result of the whole composed
+    model -- the mono curve with or without direct sound -- of the rotated room for the rotated
+    source and receiver is the IDENTICAL list: the patch-wise receiver terms correspond through
+    [pi] (same slot towards the receiver, same receiver share, distance and arrival bin), and the
+    sum over the patches does not depend on their numbering. *)
+Theorem C17_room_rotation_curve_partial {T} {O : Ops T} {RL : RingLaws T} {OL : OrderLaws T}
+    {FL : FieldLaws T} {FlL : FloorLaws T} {DL : DivLaws T} {AL : FieldFacts.AbsLaws T}
+    (sigma : nat -> nat) (e0 e1 e2 : T) (rm : @room T) (pi : nat -> nat) (spos rpos : @vec T) :
+  Permutation [sigma 0; sigma 1; sigma 2] [0; 1; 2] ->
+  (e0 = 1 \/ e0 = - (1))%T -> (e1 = 1 \/ e1 = - (1))%T -> (e2 = 1 \/ e2 = - (1))%T ->
+  sdet sigma e0 e1 e2 = 1%T ->
+  walls_ok rm -> rm_ref_out rm <> [] -> relabels sigma e0 e1 e2 rm pi ->
+  let m := smap sigma e0 e1 e2 in
+  let rm' := sperm_room sigma e0 e1 e2 rm in
+  let sc := room_scene rm in
+  let sc' := room_scene rm' in
+  (forall k, k < rm_np rm ->
+     nthb (room_point_vis rm' (m spos)) (pi k) = nthb (room_point_vis rm spos) k) ->
+  (forall k, k < rm_np rm ->
+     nthb (room_point_vis rm' (m rpos)) (pi k) = nthb (room_point_vis rm rpos) k) ->
+  (forall i j, i < rm_np rm -> j < rm_np rm -> vis_sym sc' (pi i) (pi j) = vis_sym sc i j) ->
+  (forall i j, i < rm_np rm -> j < rm_np rm -> vis_sym sc i j = true -> wall sc i <> wall sc j) ->
+  (forall i j, i < j -> j < rm_np rm -> vis_sym sc i j = true ->
+     coincidence_check (rm_thres rm) (nth j (rm_patch_pts rm) []) (nth i (rm_patch_pts rm) []) = true ->
+     nusselt_ff (rm_thr_seg rm) (rm_thr_dot rm) (rm_thr_lag rm)
+       (nth (pi i) (rm_patch_pts rm') []) (nthv (pr_normals (rm_processed rm')) (pi i))
+       (nth (pi j) (rm_patch_pts rm') []) (nthv (pr_normals (rm_processed rm')) (pi j)) =
+     nusselt_ff (rm_thr_seg rm) (rm_thr_dot rm) (rm_thr_lag rm)
+       (nth i (rm_patch_pts rm) []) (nthv (pr_normals (rm_processed rm)) i)
+       (nth j (rm_patch_pts rm) []) (nthv (pr_normals (rm_processed rm)) j)) ->
+  forall tm K direct,
+    room_mono rm' tm (m spos) (m rpos) K direct = room_mono rm tm spos rpos K direct.
+Proof.
+  intros Hp H0 H1 H2 Hdet Hw Hout Hpi. cbv zeta. intros Hsv Hrv Hvis Hacross HNus tm K direct.
+  exact (room_mono_rotation sigma e0 e1 e2 Hp H0 H1 H2 Hdet rm Hw Hout pi Hpi spos rpos Hsv Hrv Hvis Hacross HNus
+           tm K direct).
+Qed.
+Print Assumptions C17_room_rotation_curve_partial.
